@@ -20,7 +20,7 @@ func init() {
 	register(&Check{
 		ID:    "C01",
 		Title: "Multiproof completeness: every honest set of openings verifies",
-		Rule: "honest opening sets: n in {1,2,3,W-1,W,W+1,2W-1,2W,2W+1,3W+5,100,257,1000, 255/256/512 at one or two evaluation points, 4097 on some children (+5000 and 65537 thorough)} for the child's NumCPU W; ten index patterns (all equal, consecutive, {0,255}, {3,200}, only 255, all 256 indices, descending, random with repeats, two adjacent, random); polynomials zero/constant/unit/all r-1/sparse/small/edge/low-degree/random incl. equal polynomials; " +
+		Rule: "honest opening sets: n in {1,2,3,W-1,W,W+1,2W-1,2W,2W+1,3W+5,100,257,1000, 255/256/512 at one or two evaluation points, 4097 and 8193 on some children (+5000, 16385 and 65537 thorough)} for the child's NumCPU W; ten index patterns (all equal, consecutive, {0,255}, {3,200}, only 255, all 256 indices, descending, random with repeats, two adjacent, random); polynomials zero/constant/unit/all r-1/sparse/small/edge/low-degree/random incl. equal polynomials; " +
 			"commitments Z=1 / rescaled / sign-flipped / mixed, fresh objects / shared pointers / mixed; labels empty/usual/2kB/random bytes; children under NumCPU x GOMAXPROCS with H7 delays permuting worker arrival; each case: CreateMultiProof, CheckMultiProof on a fresh transcript, transcript states compared, commitments still in their class; the decoded proof verified again with the verifier's own argument objects (mixed representations); in a third of the cases error-path verifications (malformed proofs/statements) precede the honest one; a seeded sample re-verified by the reference verifier from the serialised bytes; " +
 			"a class is (n relative to W, #distinct indices class, index pattern, representation, pointer pattern, NumCPU, GOMAXPROCS); non-trivial = n >= 2",
 		Technique:        "runtime monitor on prover+verifier of the real code under varied NumCPU/GOMAXPROCS with hook-injected delays and arrival-order recording; independent reference verifier (math/big) on a sample",
@@ -69,6 +69,12 @@ func runC01(c *mon.Ctx) {
 	if w%4 == 3 || (w == 16 && gmp == 4) {
 		sizes = append(sizes, 4097) // beyond 4096 openings (powers of r, chunked helpers), not a multiple of the task counts
 	}
+	if w == 5 {
+		sizes = append(sizes, 8193) // one past the next round count (2^13): a verifier or prover that works in blocks of 8192 has a partial last block
+	}
+	if c.Thorough() && w == 10 && gmp >= 4 {
+		sizes = append(sizes, 16385)
+	}
 	if gmp > 16 {
 		sizes = []int{1, 2, 3, 7, 47, 49, 127, 129, 255, 321, 1025} // odd sizes around the MSM window thresholds: GOMAXPROCS far above NumCPU
 	}
@@ -91,7 +97,7 @@ func runC01(c *mon.Ctx) {
 		if n == 255 || n == 256 || n == 512 {
 			pats = []int{0, 2, 4}
 		}
-		if n == 4097 || n == 65537 {
+		if n == 4097 || n == 8193 || n == 16385 || n == 65537 {
 			pats = []int{7}
 		}
 		for _, pat := range pats {
